@@ -54,12 +54,12 @@ theorem matmul_assoc (k l : Nat) (A B D : Mat C) :
 /-- the matrix triple product: `⟨y, Eo f Ei⟩ = ⟨Eoᴴ (y Eiᴴ), f⟩` (association of `dft2`) -/
 theorem dft2_adjoint (M m n N : Nat) (Eo Ei f y : Mat C) :
     ip2 conj M N y (dft2 M m n N Eo f Ei) = ip2 conj m n (dftBack conj M m n N Eo y Ei) f := by
-  simp only [dft2, dftBack, tab_eq]
+  simp only [dft2, dftBack]
   rw [ip2_matmul_right conj hc, ip2_matmul_left conj hc]
 
 theorem idft2_adjoint (M m n N : Nat) (Eo Ei f y : Mat C) :
     ip2 conj M N y (idft2 M m n N Eo f Ei) = ip2 conj m n (dftBack conj M m n N Eo y Ei) f := by
-  simp only [idft2, dftBack, tab_eq]
+  simp only [idft2, dftBack]
   rw [ip2_matmul_left conj hc, ip2_matmul_right conj hc, matmul_assoc]
 end C06L
 namespace C06L
@@ -93,7 +93,7 @@ theorem dftBack_of_scaled_adjoint (m n : Nat) (F1 F2 G1 G2 y : Mat C) (c1 c2 : C
     (hc1 : conj c1 = c1) (hc2 : conj c2 = c2) :
     dftBack conj m m n n G1 y G2 = fun i j => c1 * c2 * dft2 m m n n F1 y F2 i j := by
   funext i j
-  simp only [dftBack, dft2, tab_eq, matmul, conjT, sumTo_eq, h1, h2, map_mul, hc, hc1, hc2,
+  simp only [dftBack, dft2, matmul, conjT, sumTo_eq, h1, h2, map_mul, hc, hc1, hc2,
     Finset.mul_sum, Finset.sum_mul]
   rw [Finset.sum_comm]
   refine Finset.sum_congr rfl fun a _ => Finset.sum_congr rfl fun b _ => ?_
@@ -104,7 +104,7 @@ theorem dftBack_scaled (m n : Nat) (F1 F2 G1 G2 W : Mat C) (c1 c2 : C)
     (h1 : ∀ i j, G1 i j = c1 * conj (F1 j i)) (h2 : ∀ i j, G2 i j = c2 * conj (F2 j i)) :
     dftBack conj m m n n F1 (fun i j => c1 * c2 * W i j) F2 = idft2 m m n n G1 W G2 := by
   funext i j
-  simp only [dftBack, idft2, tab_eq, matmul, conjT, sumTo_eq, h1, h2, Finset.mul_sum, Finset.sum_mul]
+  simp only [dftBack, idft2, matmul, conjT, sumTo_eq, h1, h2, Finset.mul_sum, Finset.sum_mul]
   refine Finset.sum_congr rfl fun a _ => Finset.sum_congr rfl fun b _ => ?_
   ring
 
